@@ -31,12 +31,28 @@ const (
 
 func withoutReservedK8sEntries(a map[string]string) map[string]string {
 	for k := range a {
-		s := strings.Split(k, "/")
-		if strings.HasSuffix(s[0], "kubernetes.io") || strings.HasSuffix(s[0], "k8s.io") {
+		// A key without a prefix is private to the user, it is never reserved.
+		prefix, _, found := strings.Cut(k, "/")
+		if !found {
+			continue
+		}
+		if isReservedK8sDomain(prefix) {
 			delete(a, k)
 		}
 	}
 	return a
+}
+
+// isReservedK8sDomain returns true if the supplied label or annotation key
+// prefix is kubernetes.io, k8s.io, or one of their subdomains. Domains that
+// merely end with the same characters (e.g. mykubernetes.io) are not reserved.
+func isReservedK8sDomain(prefix string) bool {
+	for _, d := range []string{"kubernetes.io", "k8s.io"} {
+		if prefix == d || strings.HasSuffix(prefix, "."+d) {
+			return true
+		}
+	}
+	return false
 }
 
 func withoutKeys(in map[string]any, keys ...string) map[string]any {
